@@ -48,7 +48,11 @@ def area2(vs):
 
 def star_polygon(rng, n, R, cx=0, cy=0, den=4):
     """star-shaped polygon with rational vertices around (cx, cy), counter-clockwise"""
-    angs = sorted(rng.sample(range(0, 360, 5), n))
+    while True:
+        angs = sorted(rng.sample(range(0, 360, 5), n))
+        gaps = [(angs[(i + 1) % n] - angs[i]) % 360 for i in range(n)]
+        if max(gaps) <= 150:      # the centre is strictly inside, with margin
+            break
     vs = []
     for a in angs:
         r = rng.uniform(R * 0.45, R)
